@@ -1099,7 +1099,7 @@ func Run(ctx *common.Ctx) {
 	}
 	_ = utf8.RuneError
 	ctx.Meta.DistinctNontrivial = len(distinct)
-	ctx.Meta.Rule = "part A: every ASCII character and 15 boundary scalars as a character, inside a string, as a symbol name alone and in a list, under a flat readable and a pretty configuration; part B: integers (boundary, small, int64, up to 200 bits, base^k-1) in every base 2..36 with and without *print-radix*; part C: random objects (depth <= 3, lists, dotted lists, vectors, arrays of rank 2-3; integers, ratios, floats of the three formats, strings and characters over 24 scalar classes, 100 listed symbol names incl. ones needing |quoting| plus random ASCII names, nil, t) x random printer configuration (base 2..36, radix, case 4 values, pretty, right margin 1..200 or nil, readably, escape, array); 40% of the pairs go through write-to-string with every keyword and read-from-string; distinct = distinct (configuration, object, text, read-back) terms"
+	ctx.Meta.Rule = "part A: every ASCII character and 15 boundary scalars as a character, inside a string, as a symbol name alone and in a list, under a flat readable and a pretty configuration; part B: integers (boundary, small, int64, up to 200 bits, base^k-1) in every base 2..36 with and without *print-radix*; part C: random objects (depth <= 3, lists, dotted lists, vectors, arrays of rank 2-3; integers, ratios, floats of the three formats, strings and characters over 24 scalar classes, 100 listed symbol names incl. ones needing |quoting| plus random ASCII names, nil, t) x random printer configuration (base 2..36, radix, case 4 values, pretty, right margin 1..200 or nil, readably, escape, array); 40% of the pairs go through write-to-string with every keyword and read-from-string; part E: for each of the thirteen repaired findings (repo_fixes C03-2..C03-14) objects of the shape that used to fail under the configurations that failed (number-like names, names needing bars in nested pretty lists under small margins, | \\ and control bytes, keywords, ?, non-ASCII names, the dot in every list position, nil/NIL, @-names, NUL, the sixteen characters printed by code, arrays of rank 2..17 under every radix prefix), each through Printer.Append and through write-to-string; distinct = distinct (configuration, object, text, read-back) terms"
 	header := "From C03 Require Import Model Spec Corr.\nLocal Open Scope N_scope.\n"
 	footer := "Definition res := Eval vm_compute in check_all cases.\nPrint res.\nDefinition gcount := Eval vm_compute in guard_count cases.\nPrint gcount.\nDefinition outside := Eval vm_compute in outside_failures cases.\nPrint outside.\nDefinition textdiff := Eval vm_compute in text_differences cases.\nPrint textdiff.\nDefinition drift := Eval vm_compute in drift_outside_guard cases.\nPrint drift.\n"
 	ctx.WriteShards("cases", header, "case", footer, terms, descs, 16)
